@@ -1,5 +1,6 @@
 import PysphVerif.Driver.Common
 import PysphVerif.Model.Codegen
+import PysphVerif.Model.CodegenOpts
 import PysphVerif.Gen.Precomp
 /-!
 Line protocol for C02 (names are identifiers, lists comma separated, `_` empty).
@@ -16,6 +17,13 @@ Line protocol for C02 (names are identifiers, lists comma separated, `_` empty).
     → the call sites of the generated `compute` in text order, each
       `<cond|pre|post>@<group the text belongs to>><group referred to>` with groups written
       `i` / `i.k` (`?` = KeyError), `_` if there is none
+* `limits real=<0|1> start=<n:K|r:NAME> stop=<all|n:K|r:NAME> dests=<names>`
+    → per destination `<dest>:<start>..<stop>` with the emitted right-hand sides of
+      `D_START_IDX` / `NP_DEST`: `lit:K`, `first:<dest>.<prop>`, `size:<dest>.<0|1>`
+* `wrappers I cls=<Class> attrs=<attr>:<tag>;… I …`   (the equation objects in order; tags
+    bool|int|float|str|numlist|list|tuple|object)
+    → `last=<Class>{attr:ctype;…}|… merge=…`: the attribute declarations of the wrapper classes,
+      typed from the last instance of each class name / from the widened representative
 * `evalblock which=code|doc|conv sym=<S> d=<p>:<f>;… s=<p>:<f>;… st=<S>:<k>:<f>;…`
     → the values the block leaves in `S` (three components for vectors), at
       Float, with the stand-in functions documented in `fnStub`/`fnOutStub`
@@ -176,6 +184,74 @@ def handleCallSites (toks : List String) : String :=
     | none => "bad-op"
     | some gs => showList showSite (callSites gs)
 
+/-! destination loop limits -/
+
+def parseStart? (s : String) : Option StartIdx :=
+  if s.startsWith "n:" then (parseInt? (s.drop 2).toString).map StartIdx.num
+  else if s.startsWith "r:" ∧ s.length > 2 then some (.ref (s.drop 2).toString)
+  else none
+
+def parseStop? (s : String) : Option StopIdx :=
+  if s = "all" then some .all
+  else if s.startsWith "n:" then (parseInt? (s.drop 2).toString).map StopIdx.num
+  else if s.startsWith "r:" ∧ s.length > 2 then some (.ref (s.drop 2).toString)
+  else none
+
+def showLim : LimExpr → String
+  | .lit n => "lit:" ++ toString n
+  | .first d p => "first:" ++ d ++ "." ++ p
+  | .size d r => "size:" ++ d ++ "." ++ (if r then "1" else "0")
+
+def handleLimits (toks : List String) : String :=
+  let kv := kvs toks
+  match (lookup kv "real") >>= parseBit?, (lookup kv "start") >>= parseStart?,
+        (lookup kv "stop") >>= parseStop?, (lookup kv "dests") >>= names? with
+  | some real, some start, some stop, some dests =>
+    if dests.isEmpty then "bad-op" else
+    " ".intercalate (dests.map (fun d =>
+      d ++ ":" ++ showLim (startExpr d start) ++ ".." ++ showLim (stopExpr d real stop)))
+  | _, _, _, _ => "bad-op"
+
+/-! attribute declarations of the wrapper classes -/
+
+def parseTag? (s : String) : Option PyTag :=
+  if s = "bool" then some .bool else if s = "int" then some .int
+  else if s = "float" then some .float else if s = "str" then some .str
+  else if s = "numlist" then some .numlist else if s = "list" then some .list
+  else if s = "tuple" then some .tuple else if s = "object" then some .object else none
+
+def parseAttr? (s : String) : Option (String × PyTag) :=
+  match s.splitOn ":" with
+  | [a, t] => (parseTag? t).map (fun t => (a, t))
+  | _ => none
+
+def parseInst (toks : List String) : Option Inst := do
+  let kv := kvs toks
+  let cls ← lookup kv "cls"
+  let attrs ← (semi (← lookup kv "attrs")).mapM parseAttr?
+  pure { cls := cls, attrs := attrs }
+
+def splitI (toks : List String) : List (List String) :=
+  let r := toks.foldl (fun (acc : List (List String)) t =>
+    if t = "I" then [] :: acc else
+    match acc with
+    | [] => []
+    | g :: gs => (t :: g) :: gs) []
+  r.reverse.map List.reverse
+
+def showDecls (w : List (Name × List (Name × Name))) : String :=
+  if w.isEmpty then "_" else
+  "|".intercalate (w.map (fun c => c.1 ++ "{" ++
+    ";".intercalate (c.2.map (fun d => d.1 ++ ":" ++ d.2)) ++ "}"))
+
+def handleWrappers (toks : List String) : String :=
+  if toks.head? ≠ some "I" then "bad-op" else
+  match (splitI toks).mapM parseInst with
+  | none => "bad-op"
+  | some insts =>
+    "last=" ++ showDecls (wrapperDecls declsLast insts) ++
+    " merge=" ++ showDecls (wrapperDecls declsMerge insts)
+
 /-! stand-in functions for block evaluation (mirrored by the harness) -/
 
 instance : NatCast Float := ⟨Nat.toFloat⟩
@@ -247,6 +323,8 @@ def handle (line : String) : String :=
      | _, _ => "bad-op")
   | "wiring" :: rest => handleWiring rest
   | "callsites" :: rest => handleCallSites rest
+  | "limits" :: rest => handleLimits rest
+  | "wrappers" :: rest => handleWrappers rest
   | "evalblock" :: rest => handleEval rest
   | ["tables"] =>
     let ks (t : List (String × Block)) := showList id (t.map (·.1))
